@@ -9,6 +9,7 @@ VERIF = os.path.dirname(os.path.dirname(os.path.abspath(__file__)))
 SPECS = os.path.join(VERIF, "specs")
 HARNESS = os.path.join(VERIF, "harness")
 VH = os.path.join(HARNESS, "target", "vh", "vh")
+VHCHK = os.path.join(HARNESS, "target", "vhchk", "vh")     # the same harness with overflow checks, debug assertions and std's unsafe-precondition checks
 TLA_CP = "/opt/veriftools/tla/tla2tools.jar:/opt/veriftools/tla/CommunityModules-deps.jar"
 
 
@@ -54,9 +55,10 @@ class Ctx:
         self.quick = tier == "quick"
 
     # ------------------------------------------------------------------ build
-    def build_harness(self):
-        global VH
+    def build_harness(self, checked=False):
+        global VH, VHCHK
         t = time.time()
+        profiles = ["vh"] + (["vhchk"] if checked else [])
         env = dict(os.environ, CARGO_NET_OFFLINE="true")
         alt = os.environ.get("VERIF_REPO")
         if alt and os.path.abspath(alt) != "/repo":
@@ -67,22 +69,25 @@ class Ctx:
             subprocess.run(["rsync", "-a", "--delete", "--exclude", "target", HARNESS + "/", hdir + "/"], check=True)
             ct = open(os.path.join(hdir, "Cargo.toml")).read().replace('"/repo/', '"%s/' % os.path.abspath(alt))
             open(os.path.join(hdir, "Cargo.toml"), "w").write(ct)
-            p = subprocess.run(["cargo", "build", "--profile", "vh", "--offline"], cwd=hdir, env=env,
-                               stdout=subprocess.PIPE, stderr=subprocess.STDOUT, text=True, timeout=1800)
-            if p.returncode != 0:
-                sys.stdout.write(p.stdout[-6000:]); raise ToolError("alt harness build failed")
+            for prof in profiles:
+                p = subprocess.run(["cargo", "build", "--profile", prof, "--offline"], cwd=hdir, env=env,
+                                   stdout=subprocess.PIPE, stderr=subprocess.STDOUT, text=True, timeout=1800)
+                if p.returncode != 0:
+                    sys.stdout.write(p.stdout[-6000:]); raise ToolError("alt harness build failed")
             VH = os.path.join(hdir, "target", "vh", "vh")
+            VHCHK = os.path.join(hdir, "target", "vhchk", "vh")
             log("[build] ALT harness built against %s in %.1fs" % (alt, time.time() - t))
             return VH
         lock_src = "/repo/Cargo.lock"
         lock_dst = os.path.join(HARNESS, "Cargo.lock")
         if not os.path.exists(lock_dst) and os.path.exists(lock_src):
             shutil.copy(lock_src, lock_dst)
-        p = subprocess.run(["cargo", "build", "--profile", "vh", "--offline"], cwd=HARNESS, env=env,
-                           stdout=subprocess.PIPE, stderr=subprocess.STDOUT, text=True, timeout=1800)
-        if p.returncode != 0:
-            sys.stdout.write(p.stdout[-6000:])
-            raise ToolError("harness build failed (does /repo still compile with --cfg ohkami_verif?)")
+        for prof in profiles:
+            p = subprocess.run(["cargo", "build", "--profile", prof, "--offline"], cwd=HARNESS, env=env,
+                               stdout=subprocess.PIPE, stderr=subprocess.STDOUT, text=True, timeout=1800)
+            if p.returncode != 0:
+                sys.stdout.write(p.stdout[-6000:])
+                raise ToolError("harness build failed (does /repo still compile with --cfg ohkami_verif?)")
         log("[build] harness built from /repo working tree in %.1fs" % (time.time() - t))
         return VH
 
@@ -166,8 +171,8 @@ class Ctx:
         return o
 
     # ------------------------------------------------------------------ harness
-    def vh(self, sub, inp, outp, jobs=12, fresh=False, timeout_ms=10000, timeout=1800):
-        cmd = [VH, "run", sub, "--in", inp, "--out", outp, "--jobs", str(jobs), "--timeout-ms", str(timeout_ms)]
+    def vh(self, sub, inp, outp, jobs=12, fresh=False, timeout_ms=10000, timeout=1800, checked=False):
+        cmd = [VHCHK if checked else VH, "run", sub, "--in", inp, "--out", outp, "--jobs", str(jobs), "--timeout-ms", str(timeout_ms)]
         if fresh:
             cmd.append("--fresh")
         t = time.time()
@@ -179,7 +184,7 @@ class Ctx:
         tool = [o for o in obs if o["obs"].get("kind") in ("tool-error", "unimplemented")]
         if tool:
             raise ToolError("harness reported a tool error: %s" % json.dumps(tool[0])[:600])
-        log("[vh] %s: %d scenarios executed on the real code in %.1fs" % (sub, len(obs), time.time() - t))
+        log("[vh] %s: %d scenarios executed on the real code%s in %.1fs" % (sub, len(obs), " (checked build)" if checked else "", time.time() - t))
         return obs
 
     def vh_gen(self, sub, outp, n, extra=()):
@@ -220,6 +225,11 @@ class Ctx:
 
     def violation(self, sig, what, replay):
         """sig: dict of strings/ints identifying the class of the violating scenario and its outcome."""
+        o = replay.get("obs") if isinstance(replay, dict) else None
+        if isinstance(o, dict) and o.get("kind") == "panic" and replay.get("scn", {}).get("build") == "checked":
+            # in the checked build the message of the panic is part of the signature (file names and line numbers removed)
+            sig = dict(sig, build="checked", panic_msg=re.sub(r"^\S*\.rs:\d+(:\d+)?:\s*", "", str(o.get("msg", "")))[:80])
+            sig.pop("where", None)
         self.violations.append({"sig": sig, "what": what, "replay": replay})
 
 
@@ -303,14 +313,14 @@ def finish(ctx, level="model_checking", rule="", assumptions=(), trusted=(), exh
         json.dump(ev, f, indent=1)
     log("[done] %s tier=%s seed=%d: %d evaluations, %d states, %d violation class(es), %d known finding(s) hit, %.1fs" % (
         ctx.prop, ctx.tier, ctx.seed, ctx.evaluations, ctx.states, len(unknown), sum(1 for v in hits.values() if v), wall))
-    if rc == 0:
+    if rc == 0 and not os.environ.get("VERIF_KEEP"):
         shutil.rmtree(ctx.work, ignore_errors=True)
     return rc
 
 
 def standard_pipeline(ctx, *, sub, mc=(), gen=(), trace, random_n=0, random_extra=(), jobs=12, fresh=False,
                       timeout_ms=10000, nontrivial=None, dedupe_key=None, post_gen=None, trace_env=None,
-                      trace_heap="4g", trace_timeout=1800, chunk=60000, random_filter=None):
+                      trace_heap="4g", trace_timeout=1800, chunk=60000, random_filter=None, checked=False):
     """The pipeline shared by most properties (DESIGN §2):
       mc:    [(module, cfg, kwargs)]  exhaustive model checking of the design (layers a+b); must hold
       gen:   [(module, cfg, kwargs)]  TLC prints scenarios (one JSON record each, PrintT(ToJson(..)))
@@ -319,7 +329,7 @@ def standard_pipeline(ctx, *, sub, mc=(), gen=(), trace, random_n=0, random_extr
                                       record {"t":"VERDICT","id":n,"ok":bool,"sig":{..}} per line
       random_n: additional scenarios from the harness's seeded random generator (`vh gen <sub>`), same vocabulary
     Violations (ok = false) are registered with their signature; the caller then calls finish()."""
-    ctx.build_harness()
+    ctx.build_harness(checked=checked)
     for module, cfg, kw in mc:
         ctx.tlc(module, cfg, **kw)
     scns = []
@@ -349,7 +359,19 @@ def standard_pipeline(ctx, *, sub, mc=(), gen=(), trace, random_n=0, random_extr
         d["id"] = n
     inp = ctx.write_ndjson("scenarios.ndjson", scns)
     obs = ctx.vh(sub, inp, ctx.path("observations.ndjson"), jobs=jobs, fresh=fresh, timeout_ms=timeout_ms)
-    ctx.evaluations += len(obs)
+    if checked:
+        # the same scenarios on the build with overflow checks, debug assertions and std's unsafe-precondition checks; an observation
+        # that differs from the optimised build's is judged as a scenario of its own (equal observations get equal verdicts)
+        obs2 = ctx.vh(sub, inp, ctx.path("observations-checked.ndjson"), jobs=jobs, fresh=fresh, timeout_ms=timeout_ms, checked=True)
+        by = {o["id"]: o for o in obs}
+        extra = []
+        for o2 in obs2:
+            if o2["obs"] != by[o2["id"]]["obs"]:
+                extra.append({"id": len(obs) + len(extra), "scn": dict(o2["scn"], build="checked"), "obs": o2["obs"]})   # scn.id (the seed of the scenario) stays
+        ctx.extra["checked_build_differs"] = len(extra)
+        ctx.evaluations += len(obs2)
+        obs = obs + extra
+    ctx.evaluations += len(obs) - (len(extra) if checked else 0)
     ctx.extra["scenarios_from_tlc"] = n_tlc
     ctx.extra["scenarios_random"] = len(scns) - n_tlc
     if nontrivial:
@@ -389,10 +411,11 @@ def standard_pipeline(ctx, *, sub, mc=(), gen=(), trace, random_n=0, random_extr
 
 def standard_replay(ctx, path, *, sub, trace, fresh=False):
     doc = json.load(open(path))
-    ctx.build_harness()
     scn = doc["scenario"]["scn"]
+    chk = scn.get("build") == "checked"
+    ctx.build_harness(checked=chk)
     inp = ctx.write_ndjson("scenarios.ndjson", [scn])
-    obs = ctx.vh(sub, inp, ctx.path("observations.ndjson"), jobs=1, fresh=fresh)
+    obs = ctx.vh(sub, inp, ctx.path("observations.ndjson"), jobs=1, fresh=fresh, checked=chk)
     print(json.dumps(obs[0], indent=1))
     tp = ctx.write_ndjson("trace.ndjson", obs)
     t = ctx.validate(trace[0], trace[1], tp, 1)
